@@ -24,8 +24,9 @@ CLAIMED = {
          "an implementation-side oracle (truth table + unique multilinear form + purity of operands).",
     note="Trusted: Coq kernel + vm_compute; no axioms (closed under the global context); hand-written model of "
          "_dict_arithmetic.py/_pubomatrix.py/_values.py; harness. Uniqueness of the canonical form: C05_unique_zero / "
-         "C05_unique_sub for the boolean kinds (a canonical polynomial vanishing on all 0/1 assignments is empty); for the spin "
-         "kinds it is checked by the oracle (Walsh inversion on the implementation). Floats only on dyadic values.",
+         "C05_unique_sub for the boolean kinds (a canonical polynomial vanishing on all 0/1 assignments is empty) and "
+         "C05_unique_zero_spin / C05_unique_sub_spin for the spin kinds (vanishing on all +-1 assignments); the oracle checks the "
+         "same on the implementation (Moebius / Walsh inversion). Floats only on dyadic values.",
     technique="Coq proof (induction over expression trees) + model/implementation correspondence", ref="§5 C05"),
  "C14": dict(
     text="Coq theorems C14_init/C14_step/C14_reachable: the bookkeeping invariant (reported variables and degree are upper "
